@@ -41,6 +41,7 @@ def _history(job):
     px = dict(prices)
     cnt, viol, hist = {'histories': 1}, [], []
     live = {}
+    dead = []          # (key, order) of cancelled orders
     exch = w.exchange
     import jesse.helpers as jh
     from jesse.exceptions import InsufficientBalance
@@ -148,6 +149,16 @@ def _history(job):
         w.cancel(o)
         mdl.cancel(key)
         compare(f'after cancel #{key}')
+        dead.append((key, o))
+
+    def do_flush_dead():
+        # what the queue of pending MARKET orders does with an order that was cancelled while it was still queued: execute()
+        # is called on it once more - a cancelled order cannot fill in a cash account
+        key, o = rng.choice(dead)
+        hist.append(['execute_cancelled', key])
+        w.execute(o)
+        c('execute_calls_on_cancelled_orders')
+        compare(f'after execute() on cancelled #{key}')
 
     def dq(x):
         # decimal quantities that are not exactly representable in binary
@@ -164,6 +175,14 @@ def _history(job):
             base = float(mdl.base[sym])
             r = rng.random()
             mine = [k for k, o in live.items() if o.symbol == sym]
+            if dead and rng.random() < 0.06:
+                do_flush_dead()
+            if rng.random() < 0.04:
+                # a MARKET buy cancelled while still pending, then the queue is flushed
+                k = do_submit(sym, 'buy', 'MARKET', dq(float(mdl.quote) * 0.05 / cur), cur, False)
+                do_cancel(k)
+                do_flush_dead()
+                continue
             if r < 0.18:
                 quote = float(mdl.quote)
                 frac = rng.choice([0.05, 0.1, 0.3, 0.7, 0.999, 1.0, 1.001, 1.3])
